@@ -304,7 +304,10 @@ impl Check for E2eCheck {
         cfg.strategy = Strategy::RunToBlock(*src.pick(&[50u32, 200]));
         cfg.stall_steps = 200_000;
         let fair = true;
-        let mstream = *src.pick(&[64usize << 10, 256 << 10, 1 << 20]);
+        // Not below 256 KiB: the chain's FFT filter works in blocks of several
+        // thousand samples, and a stream shrunk below a few blocks would
+        // deadlock by construction (the shipped streams are 4 MB).
+        let mstream = *src.pick(&[256usize << 10, 512 << 10, 1 << 20]);
         let sched = Sched::new(std::mem::replace(src, Src::from_seed(0)), cfg, false);
         let out: Arc<Mutex<Option<(Result<(), String>, Vec<Vec<u8>>)>>> = Arc::new(Mutex::new(None));
         let o2 = out.clone();
